@@ -74,64 +74,101 @@ Theorem C10_block_calls_2d : forall St (rule : block_rule2 St) store b1 b2 s lg 
     (snd (fst r) = false -> k = length blocks).
 Proof. exact block_calls_2d. Qed.
 
+(* ------------------------------------------------------------------ block_calls over a whole run *)
+
+(* evolve_block passes the step numbers 1 .. T-1; step t reads row t-1 of the evolution (row 0 = the last
+   row of the given history); the call log of the run is the concatenation of the per-step logs: one
+   (contents, t) per block in block order, the partitions alternating from the aligned one at t = 1 *)
+Theorem C10_evolve_block_calls : forall St (rule : block_rule St) store b s0 lg0 hist T s lg rows,
+  evolve_block (logged_b rule) store b (s0, lg0) hist T = Ok ((s, lg), hist ++ rows) ->
+  length rows = T - 1 /\
+  lg = lg0 ++ flat_map (fun t => map (fun blk => (gather (nth (t - 1) (last hist [] :: rows) []) blk, t))
+                                     (blocks_at (length (last hist [])) b t)) (seq 1 (T - 1)).
+Proof. exact evolve_block_calls. Qed.
+
+Theorem C10_evolve2d_block_calls : forall St (rule : block_rule2 St) store b1 b2 s0 lg0 (hist : list grid2) T s lg grids,
+  evolve2d_block (logged_b2 rule) store b1 b2 (s0, lg0) hist T = Ok ((s, lg), hist ++ grids) ->
+  length grids = T - 1 /\
+  lg = lg0 ++ flat_map (fun t => map (fun rc => (gather2 (nth (t - 1) (last hist [] :: grids) []) rc, t))
+                                     (blocks2_at (rows_of (last hist [])) (cols_of (last hist [])) b1 b2 t))
+                       (seq 1 (T - 1)).
+Proof. exact evolve2d_block_calls. Qed.
+
 (* ------------------------------------------------------------------ write-back to the same cells *)
 
-(* the new row/grid, read through a block of step t, is what the (pure, shape-preserving) rule returned
-   for that block's previous contents.  (General state machines: BlockProofs.step_block_gather /
-   step_block2d_gather.) *)
-Theorem C10_block_writeback_1d : forall h b cells t blk, 1 <= b ->
-  (forall x t, length (h x t) = length x) -> In blk (blocks_at (length cells) b t) ->
+(* the new row/grid, read through a block of step t, is what the (pure) rule returned for that block's
+   previous contents; the rule only has to keep the size of blocks of the automaton's block size.
+   (General state machines and casts: BlockProofs.step_block_gather / step_block2d_gather.) *)
+Theorem C10_block_writeback_1d : forall h b m cells t blk, 1 <= b -> length cells = m * b ->
+  (forall x t, length x = b -> length (h x t) = b) -> In blk (blocks_at (length cells) b t) ->
   gather (snd (step_block (pure_b h) id_store b tt cells t)) blk = h (gather cells blk) t.
-Proof. exact step_pure_gather. Qed.
+Proof. exact step_pure_gather'. Qed.
 
 Theorem C10_block_writeback_2d : forall h b1 b2 m1 m2 g t rc,
   1 <= b1 -> 1 <= b2 -> 1 <= m1 -> 1 <= m2 -> shape (m1 * b1) (m2 * b2) g ->
-  (forall x t hh w, shape hh w x -> shape hh w (h x t)) ->
+  (forall x t, shape b1 b2 x -> shape b1 b2 (h x t)) ->
   In rc (blocks2_at (m1 * b1) (m2 * b2) b1 b2 t) ->
   gather2 (snd (step_block2d (pure_b2 h) id_store b1 b2 (tt, false) g t)) rc = h (gather2 g rc) t.
-Proof. exact step_pure_gather2. Qed.
+Proof. exact step_pure_gather2'. Qed.
 
-(* ------------------------------------------------------------------ block_conserves *)
+(* ------------------------------------------------------------------ block_conserves
+   The hypotheses speak only about blocks of the automaton's block size (a rule written for exactly b cells,
+   e.g. fun x => match x with [a; b] => [b; a] | _ => [] end, qualifies). *)
 
-(* 1D: a rule (any state machine) that returns a permutation of its argument makes the new row a
-   permutation of the old one; any row length *)
-Theorem C10_block_conserves_1d : forall St (rule : block_rule St) b s cells t, 1 <= b ->
+(* 1D, N = m*b: a rule (any state machine) that returns a permutation of every b-cell block it is given makes
+   the new row a permutation of the old one *)
+Theorem C10_block_conserves_1d : forall St (rule : block_rule St) b m s cells t,
+  1 <= b -> length cells = m * b ->
+  (forall s x t, length x = b -> Permutation (snd (rule s x t)) x) ->
+  Permutation (snd (step_block rule id_store b s cells t)) cells.
+Proof. exact block_conserves_1d'. Qed.
+
+(* variant: every row length N (the last block may be shorter), rule permuting every list *)
+Theorem C10_block_conserves_1d_anyN : forall St (rule : block_rule St) b s cells t, 1 <= b ->
   (forall s x t, Permutation (snd (rule s x t)) x) ->
   Permutation (snd (step_block rule id_store b s cells t)) cells.
 Proof. exact block_conserves_1d. Qed.
 
 (* ... hence every new row of evolve_block is a permutation of the row it started from *)
-Theorem C10_evolve_block_conserves : forall St (rule : block_rule St) b s0 hist T s rows, 1 <= b ->
-  (forall s x t, Permutation (snd (rule s x t)) x) ->
+Theorem C10_evolve_block_conserves : forall St (rule : block_rule St) b m s0 hist T s rows, 1 <= b ->
+  length (last hist []) = m * b ->
+  (forall s x t, length x = b -> Permutation (snd (rule s x t)) x) ->
   evolve_block rule id_store b s0 hist T = Ok (s, rows) ->
   exists news, rows = hist ++ news /\ length news = T - 1 /\ Forall (fun r => Permutation r (last hist [])) news.
-Proof. exact evolve_block_conserves. Qed.
+Proof. exact evolve_block_conserves'. Qed.
 
-(* 2D: R = m1*b1, C = m2*b2; the rule returns a block of the shape it was given whose states are a
+(* 2D: R = m1*b1, C = m2*b2; the rule returns, for every b1 x b2 block, a b1 x b2 block whose states are a
    permutation of the given ones: no ValueError, the new grid is R x C and a permutation of the old one *)
 Theorem C10_block_conserves_2d : forall St (rule : block_rule2 St) b1 b2 m1 m2 s g t,
   1 <= b1 -> 1 <= b2 -> 1 <= m1 -> 1 <= m2 -> shape (m1 * b1) (m2 * b2) g ->
-  (forall s x t h w, shape h w x -> shape h w (snd (rule s x t))) ->
-  (forall s x t, Permutation (concat (snd (rule s x t))) (concat x)) ->
+  (forall s x t, shape b1 b2 x -> shape b1 b2 (snd (rule s x t))) ->
+  (forall s x t, shape b1 b2 x -> Permutation (concat (snd (rule s x t))) (concat x)) ->
   let r := step_block2d rule id_store b1 b2 (s, false) g t in
   snd (fst r) = false /\ shape (m1 * b1) (m2 * b2) (snd r) /\ Permutation (concat (snd r)) (concat g).
-Proof. exact block_conserves_2d. Qed.
+Proof. exact block_conserves_2d'. Qed.
 
 Theorem C10_evolve2d_block_conserves : forall St (rule : block_rule2 St) b1 b2 m1 m2 s0 hist T,
   1 <= b1 -> 1 <= b2 -> 1 <= m1 -> 1 <= m2 -> 1 <= T -> hist <> [] ->
   shape (m1 * b1) (m2 * b2) (last hist []) ->
-  (forall s x t h w, shape h w x -> shape h w (snd (rule s x t))) ->
-  (forall s x t, Permutation (concat (snd (rule s x t))) (concat x)) ->
+  (forall s x t, shape b1 b2 x -> shape b1 b2 (snd (rule s x t))) ->
+  (forall s x t, shape b1 b2 x -> Permutation (concat (snd (rule s x t))) (concat x)) ->
   exists s news, evolve2d_block rule id_store b1 b2 s0 hist T = Ok (s, hist ++ news) /\ length news = T - 1 /\
     Forall (fun g' => shape (m1 * b1) (m2 * b2) g' /\ Permutation (concat g') (concat (last hist []))) news.
-Proof. exact evolve2d_block_conserves. Qed.
+Proof. exact evolve2d_block_conserves'. Qed.
 
 (* ------------------------------------------------------------------ block_reversible *)
 
-(* 1D: if g undoes f on every block at the same step number, one step with g at step number t undoes one
-   step with f at step number t (same parity = same partition): the global map is injective, and by the
-   symmetric statement with f and g exchanged, bijective *)
-Theorem C10_block_reversible_1d : forall (f g : list Z -> nat -> list Z) b cells t, 1 <= b ->
+(* 1D, N = m*b: if g undoes f on every b-cell block at the same step number, one step with g at step number t
+   undoes one step with f at step number t (same parity = same partition) *)
+Theorem C10_block_reversible_1d : forall (f g : list Z -> nat -> list Z) b m cells t,
+  1 <= b -> length cells = m * b ->
+  (forall x t, length x = b -> length (f x t) = b) -> (forall x t, length x = b -> length (g x t) = b) ->
+  (forall x t, length x = b -> g (f x t) t = x) ->
+  snd (step_block (pure_b g) id_store b tt (snd (step_block (pure_b f) id_store b tt cells t)) t) = cells.
+Proof. exact block_reversible_1d'. Qed.
+
+(* variant: every row length, f and g length-preserving and inverse on every list *)
+Theorem C10_block_reversible_1d_anyN : forall (f g : list Z -> nat -> list Z) b cells t, 1 <= b ->
   (forall x t, length (f x t) = length x) -> (forall x t, length (g x t) = length x) ->
   (forall x t, g (f x t) t = x) ->
   snd (step_block (pure_b g) id_store b tt (snd (step_block (pure_b f) id_store b tt cells t)) t) = cells.
@@ -139,12 +176,32 @@ Proof. exact block_reversible_1d. Qed.
 
 Theorem C10_block_reversible_2d : forall (f g : grid2 -> nat -> grid2) b1 b2 m1 m2 g0 t,
   1 <= b1 -> 1 <= b2 -> 1 <= m1 -> 1 <= m2 -> shape (m1 * b1) (m2 * b2) g0 ->
-  (forall x t h w, shape h w x -> shape h w (f x t)) ->
-  (forall x t h w, shape h w x -> shape h w (g x t)) ->
-  (forall x t h w, shape h w x -> g (f x t) t = x) ->
+  (forall x t, shape b1 b2 x -> shape b1 b2 (f x t)) ->
+  (forall x t, shape b1 b2 x -> shape b1 b2 (g x t)) ->
+  (forall x t, shape b1 b2 x -> g (f x t) t = x) ->
   snd (step_block2d (pure_b2 g) id_store b1 b2 (tt, false)
         (snd (step_block2d (pure_b2 f) id_store b1 b2 (tt, false) g0 t)) t) = g0.
-Proof. exact block_reversible_2d. Qed.
+Proof. exact block_reversible_2d'. Qed.
+
+(* the whole evolution is reversible: with an invertible block rule the T-step map on rows (grids) is
+   injective — two runs of the same length that end in the same row started from the same row *)
+Theorem C10_evolve_block_injective : forall (f g : list Z -> nat -> list Z) b T h1 h2 r1 r2, 1 <= b ->
+  (forall x t, length x = b -> length (f x t) = b) -> (forall x t, length x = b -> length (g x t) = b) ->
+  (forall x t, length x = b -> g (f x t) t = x) ->
+  evolve_block (pure_b f) id_store b tt h1 T = Ok (tt, r1) ->
+  evolve_block (pure_b f) id_store b tt h2 T = Ok (tt, r2) ->
+  last r1 [] = last r2 [] -> last h1 [] = last h2 [].
+Proof. exact evolve_block_injective. Qed.
+
+Theorem C10_evolve2d_block_injective : forall (f g : grid2 -> nat -> grid2) b1 b2 m1 m2 T (h1 h2 r1 r2 : list grid2),
+  1 <= b1 -> 1 <= b2 -> 1 <= m1 -> 1 <= m2 ->
+  (forall x t, shape b1 b2 x -> shape b1 b2 (f x t)) -> (forall x t, shape b1 b2 x -> shape b1 b2 (g x t)) ->
+  (forall x t, shape b1 b2 x -> g (f x t) t = x) ->
+  shape (m1 * b1) (m2 * b2) (last h1 []) -> shape (m1 * b1) (m2 * b2) (last h2 []) ->
+  evolve2d_block (pure_b2 f) id_store b1 b2 tt h1 T = Ok (tt, r1) ->
+  evolve2d_block (pure_b2 f) id_store b1 b2 tt h2 T = Ok (tt, r2) ->
+  last r1 [] = last r2 [] -> last h1 [] = last h2 [].
+Proof. exact evolve2d_block_injective. Qed.
 
 (* ------------------------------------------------------------------ block_rejects *)
 
@@ -207,19 +264,38 @@ Proof.
   repeat (split; [vm_compute; reflexivity|]). vm_compute; reflexivity.
 Qed.
 
+(* a rule written for exactly b = 2 cells (it returns () for any other size) meets the size-restricted
+   hypotheses of conserves / reversible / injective, and does something *)
+Example C10_nonvacuous_sized :
+  (forall x t, length x = 2%nat -> length (swap2 x t) = 2%nat) /\
+  (forall x t, length x = 2%nat -> swap2 (swap2 x t) t = x) /\
+  (forall (s : unit) x t, length x = 2%nat -> Permutation (snd (pure_b swap2 s x t)) x) /\
+  swap2 [1; 2; 3] 0%nat = [] /\
+  evolve_block (pure_b swap2) id_store 2 tt [[1; 2; 3; 4]] 3 = Ok (tt, [[1; 2; 3; 4]; [2; 1; 4; 3]; [3; 4; 1; 2]]).
+Proof.
+  destruct swap2_props as [H1 [H2 H3]]. split; [exact H1|]. split; [exact H2|]. split; [exact H3|].
+  split; vm_compute; reflexivity.
+Qed.
+
 Print Assumptions C10_blocks_partition_1d.
 Print Assumptions C10_blocks_partition_2d.
 Print Assumptions C10_blocks_shape_1d.
 Print Assumptions C10_blocks_shape_2d.
 Print Assumptions C10_block_calls_1d.
 Print Assumptions C10_block_calls_2d.
+Print Assumptions C10_evolve_block_calls.
+Print Assumptions C10_evolve2d_block_calls.
 Print Assumptions C10_block_writeback_1d.
 Print Assumptions C10_block_writeback_2d.
 Print Assumptions C10_block_conserves_1d.
+Print Assumptions C10_block_conserves_1d_anyN.
 Print Assumptions C10_evolve_block_conserves.
 Print Assumptions C10_block_conserves_2d.
 Print Assumptions C10_evolve2d_block_conserves.
 Print Assumptions C10_block_reversible_1d.
+Print Assumptions C10_block_reversible_1d_anyN.
 Print Assumptions C10_block_reversible_2d.
+Print Assumptions C10_evolve_block_injective.
+Print Assumptions C10_evolve2d_block_injective.
 Print Assumptions C10_block_rejects_1d.
 Print Assumptions C10_block_rejects_2d.
